@@ -74,6 +74,10 @@ type NilAn struct {
 	active    map[*ssa.Function]bool
 	Truncated []string
 	PathsSeen int
+	// Fork, when set, is consulted after each instruction of a path: it may return the
+	// alternative states in which the path continues (a case split over what a called helper
+	// did, with the facts each case implies), or nil to continue unchanged.
+	Fork func(in ssa.Instruction, ps *PathState) []*PathState
 }
 
 // NewNilAn builds an analysis with defaults.
@@ -417,6 +421,9 @@ type PathState struct {
 	Nil   Facts
 	Sent  map[ssa.Value]SentFact
 	Trace []ssa.Instruction
+	// Bool: boolean values known on this path (set by a Fork hook, e.g. the `done` result of
+	// a helper); a branch on such a value takes only the matching edge
+	Bool map[ssa.Value]bool
 }
 
 // Paths enumerates the paths of fn (each CFG edge at most once per path), maintaining nil
@@ -428,15 +435,25 @@ func (a *NilAn) Paths(fn *ssa.Function, visit func(in ssa.Instruction, ps *PathS
 	}
 	type edge struct{ from, to int }
 	count := 0
-	var walk func(b *ssa.BasicBlock, ps *PathState, used map[edge]bool)
-	walk = func(b *ssa.BasicBlock, ps *PathState, used map[edge]bool) {
+	var walk func(b *ssa.BasicBlock, from int, ps *PathState, used map[edge]bool)
+	walk = func(b *ssa.BasicBlock, from int, ps *PathState, used map[edge]bool) {
 		if count > a.MaxPaths {
 			return
 		}
 		n0 := len(ps.Trace)
-		for _, in := range b.Instrs {
+		for i := from; i < len(b.Instrs); i++ {
+			in := b.Instrs[i]
 			visit(in, ps)
 			ps.Trace = append(ps.Trace, in)
+			if a.Fork != nil {
+				if alts := a.Fork(in, ps); alts != nil {
+					for _, alt := range alts {
+						walk(b, i+1, alt, used)
+					}
+					ps.Trace = ps.Trace[:n0]
+					return
+				}
+			}
 		}
 		if len(b.Succs) == 0 {
 			count++
@@ -447,8 +464,13 @@ func (a *NilAn) Paths(fn *ssa.Function, visit func(in ssa.Instruction, ps *PathS
 			if used[e] {
 				continue
 			}
-			nps := &PathState{Nil: ps.Nil, Sent: ps.Sent, Trace: ps.Trace}
+			nps := &PathState{Nil: ps.Nil, Sent: ps.Sent, Trace: ps.Trace, Bool: ps.Bool}
 			if len(b.Succs) == 2 {
+				if v, pol, ok := CondTruth(b, k); ok {
+					if bv, has := ps.Bool[v]; has && bv != pol {
+						continue
+					}
+				}
 				var feasible bool
 				nps.Nil, feasible = a.refine(b, k, ps.Nil)
 				if !feasible {
@@ -467,12 +489,12 @@ func (a *NilAn) Paths(fn *ssa.Function, visit func(in ssa.Instruction, ps *PathS
 				}
 			}
 			used[e] = true
-			walk(s, nps, used)
+			walk(s, 0, nps, used)
 			delete(used, e)
 		}
 		ps.Trace = ps.Trace[:n0]
 	}
-	walk(fn.Blocks[0], &PathState{Nil: Facts{}, Sent: map[ssa.Value]SentFact{}}, map[edge]bool{})
+	walk(fn.Blocks[0], 0, &PathState{Nil: Facts{}, Sent: map[ssa.Value]SentFact{}}, map[edge]bool{})
 	if count > a.MaxPaths {
 		a.Truncated = append(a.Truncated, FuncName(fn))
 	}
